@@ -272,6 +272,8 @@ class ImageBatch(DataTensor):
             arg = (grid,) * shape[0]
         else:
             arg = tuple(arg)
+            if len(arg) == 1 and shape[0] > 1:
+                arg = arg * shape[0]  # single grid shared by all images in the batch
             if any(grid.shape != shape[2:] for grid in arg):
                 raise ValueError(
                     "Image grid sizes must match spatial dimensions of image batch tensor"
